@@ -7,7 +7,7 @@
    conditions (the modified matrix factorises, 1 + v.z <> 0).
    PARTIAL: floating-point backward stability is covered by the exact-rational correspondence (K-solve), not by a theorem. *)
 From Coq Require Import List ZArith Bool Reals.
-From GMGP Require Import Scalar ScalarR TridiagDefs TridiagProofs TridiagCyclic TridiagSPD TridiagCyclicSPD TridiagCyclicDom TridiagUnique.
+From GMGP Require Import Scalar ScalarR TridiagDefs TridiagProofs TridiagCyclic TridiagSPD TridiagCyclicSPD TridiagCyclicDom TridiagUnique TridiagCyclicUnique.
 Import ListNotations.
 Local Open Scope R_scope.
 
@@ -88,6 +88,11 @@ Theorem C14_spd_solution_unique : forall d ds ss x0 xs y0 ys,
   @matvec_tri Rsc (d :: ds) ss (x0 :: xs) = @matvec_tri Rsc (d :: ds) ss (y0 :: ys) -> x0 :: xs = y0 :: ys.
 Proof. exact spd_solution_unique. Qed.
 
+Theorem C14_spd_cyclic_solution_unique : forall d0 ds ss c x0 xs y0 ys, ds <> [] ->
+  length ss = length ds -> length xs = length ds -> length ys = length ds -> spd_cyc d0 ds ss c ->
+  @matvec_cyc Rsc (d0 :: ds) ss c (x0 :: xs) = @matvec_cyc Rsc (d0 :: ds) ss c (y0 :: ys) -> x0 :: xs = y0 :: ys.
+Proof. exact spd_cyc_solution_unique. Qed.
+
 (* repeated solves with the same object and right-hand side return identical results (bit for bit:
    no law of arithmetic is used), the first solve included *)
 Theorem C14_repeated_solves_identical : forall (S : Sc) (t : @tri S) (b : list S),
@@ -105,3 +110,4 @@ Print Assumptions C14_spd_solve_correct.
 Print Assumptions C14_spd_cyclic_solve_correct.
 Print Assumptions C14_dominant_cyclic_solve_correct.
 Print Assumptions C14_spd_solution_unique.
+Print Assumptions C14_spd_cyclic_solution_unique.
